@@ -400,3 +400,25 @@ Print Assumptions C06_tie_header_dump.
 Theorem C06_tie_header_consts : Src3h.MLA_MAGIC = MAGIC /\ Src3h.MLA_FORMAT_VERSION = VERSION.
 Proof. exact (conj SrcTie3Header.magic_src SrcTie3Header.version_src). Qed.
 Check SrcTie3Header.header_src_examples.
+
+(* ---------- work package cfgT: the header the TRANSLATED ArchiveWriter::from_config dumps: the layers byte of the configuration as it is, the encryption part iff ENCRYPT is enabled; the bitflags constants ---------- *)
+From MLA Require Config ConfigProofs SrcTie3Cfg SrcTie3CfgR SrcTie3CfgEx.
+From MLAGen Require Src3f.
+Theorem C06_cfg_layers_consts_src : ltac:(let t := type of SrcTie3Cfg.layers_consts_src in exact t).
+Proof. exact SrcTie3Cfg.layers_consts_src. Qed.
+Print Assumptions C06_cfg_layers_consts_src.
+Theorem C06_cfg_to_persistent_src : ltac:(let t := type of SrcTie3Cfg.to_persistent_src in exact t).
+Proof. exact SrcTie3Cfg.to_persistent_src. Qed.
+Print Assumptions C06_cfg_to_persistent_src.
+Theorem C06_cfg_writer_from_config_src : ltac:(let t := type of SrcTie3Cfg.writer_from_config_src in exact t).
+Proof. exact SrcTie3Cfg.writer_from_config_src. Qed.
+Print Assumptions C06_cfg_writer_from_config_src.
+Theorem C06_cfg_writer_stack_layers : ltac:(let t := type of ConfigProofs.writer_stack_layers in exact t).
+Proof. exact ConfigProofs.writer_stack_layers. Qed.
+Print Assumptions C06_cfg_writer_stack_layers.
+Theorem C06_cfg_to_persistent_unknown_bit_differs : ltac:(let t := type of ConfigProofs.to_persistent_unknown_bit_differs in exact t).
+Proof. exact ConfigProofs.to_persistent_unknown_bit_differs. Qed.
+Print Assumptions C06_cfg_to_persistent_unknown_bit_differs.
+Theorem C06_cfg_writer_from_config_examples : ltac:(let t := type of SrcTie3Cfg.writer_from_config_examples in exact t).
+Proof. exact SrcTie3Cfg.writer_from_config_examples. Qed.
+Print Assumptions C06_cfg_writer_from_config_examples.
